@@ -325,7 +325,9 @@ UserStep(u, o, a, b, c) ==
     [] o \in {"repr", "str"} -> Out(RText, u)
     [] o = "with" -> Out(RBool(TRUE), u)                                   \* enter: depth+1, exit: depth-1
     [] o = "enter" -> Out(RSelf, [u EXCEPT !.depth = u.depth + 1])
-    [] o = "exit" -> Out(RBool(FALSE), [u EXCEPT !.depth = u.depth - 1])
+    [] o = "exit" -> Out(RBool(u.level > 1), [u EXCEPT !.depth = u.depth - 1])   \* __exit__ answers "swallow" at level 2
+    \* `with proxy: raise KeyError`: the target's __exit__ sees the exception and its answer decides whether it propagates
+    [] o = "with_raise" -> IF u.level > 1 THEN Out(RNone, u) ELSE Out(RExc("KeyError"), u)
     [] o = "get_total" -> Out(RInt(u.total), u)
     [] o = "get_level" -> Out(RInt(u.level), u)
     [] o = "set_level" -> IF a > 2 THEN Out(RExc("ValueError"), u) ELSE Out(RNone, [u EXCEPT !.level = a])
@@ -386,7 +388,7 @@ OpsOf(k, s) ==
                     \cup A1({"extend", "iadd", "add_bytes", "eq_bytes", "ne_bytes"}, 1..3) \cup A1({"mul"}, {0, 2})
                     \cup A2({"getslice"}, {-2, 0, 1}, {-1, 2, 3}) \cup A3({"setslice"}, {0, 1}, {0, 2}, 1..3)
                     \cup A1({"contains", "count", "index"}, 0..2)
-    [] k = "user" -> Z({"neg", "len", "bool", "int", "iter", "call_bad", "eq_self", "eq_text", "gt_int", "hash", "repr", "str", "with",
+    [] k = "user" -> Z({"neg", "len", "bool", "int", "iter", "call_bad", "eq_self", "eq_text", "gt_int", "hash", "repr", "str", "with", "with_raise",
                          "get_total", "get_level", "get_extra", "del_extra", "del_level", "get_hidden", "boom", "peek", "get_kind",
                          "classmeth", "getattr_missing", "next", "isinstance", "dir_has", "or_int", "ror_int", "callable"})
                     \cup A1({"add", "radd", "iadd", "call", "eq_int", "ne_int", "lt_int", "bump", "staticmeth"}, 0..2)
